@@ -295,9 +295,20 @@ def _construction(ctx) -> None:
 
 
 def _joins(ctx) -> None:
+    from ..joinsx import JoinModel
+    from ..symx import show
     for v in VARIANTS:
-        from ..joinsx import JoinModel
-        jr.wrap(ctx, JoinModel(ctx.prog, v), rule="f.joins")
+        jm = JoinModel(ctx.prog, v)
+        jr.wrap(ctx, jm, rule="f.joins")
+        # EVERY result of a join - also one without rows - is the wrapped buffers: a `return Table(())` special case for an empty
+        # result has no columns, so the source columns' names are gone
+        it = jm.it
+        rets = [e for e in it.events if e.kind == "return" and e.depth == 0]
+        final = max(rets, key=lambda e: e.seq) if rets else None
+        bad = [e for e in rets if e is not final]
+        ctx.ob("f.joins", jm.f, "every-result-named", not bad, f"{v}: one result construction, the wrapped buffers", (bad[0].node if bad else jm.f.node),
+               message=f"{v}: `return {show(bad[0].term, it)[:40] if bad else ''}` (line {getattr(bad[0].node, 'lineno', '?') if bad else '?'}) hands "
+                       f"out a result that is not the wrapped buffers: an empty join result would have no columns and lose every column name")
 
 
 def _groups(ctx) -> None:
@@ -375,6 +386,10 @@ def _selections(ctx) -> None:
 
 _V, _T = "vector", "table"
 MUTANTS = [
+    dict(id="inner-join-empty-result-without-columns", module="table",
+         old="		# (an empty result is a table with zero rows that still has every column, under its name)\n",
+         new="		if all(len(col) == 0 for col in result_data):\n			return Table(())\n", rules=["f.joins"],
+         desc="the defect repaired by fix eb6f046"),
     dict(id="arithmetic-keeps-name", module=_V, count=1,
          old="			return Vector(result_values,\n							dtype=result_dtype,\n							name=None,\n							as_row=self._display_as_row)\n		except TypeError as e:",
          new="			return Vector(result_values,\n							dtype=result_dtype,\n							name=self._name,\n							as_row=self._display_as_row)\n		except TypeError as e:",
